@@ -17,7 +17,8 @@ func init() {
 			"(1) on every path of Next that returns a value other than ValNone, lastIter is the replica selected by useA on that path (useA => a, !useA => b) and lastT is AtT() of that same replica; " +
 			"(2) E9: both inner seeks in Next use exactly lastT + 1 + penA / lastT + 1 + penB (strictly increasing output); " +
 			"(3) Seek exposes a sample only when positioned (Next ran in this call or lastT != MinInt64 was tested), and never advances a replica with the caller's target: every inner Seek's argument is the iterator's current timestamp (AtT) — 'don't use underlying Seek, iterate over Next to not miss gaps'; " +
-			"(4) dedupSeries.Iterator starts from replicas[0] and folds every element of replicas[1:] exactly once into the iterator.",
+			"(4) dedupSeries.Iterator starts from replicas[0] and folds every element of replicas[1:] exactly once into the iterator; " +
+			"(5) isCounter, evaluated for every function name it or aggrsFromFunc distinguishes, accepts only counter functions (rate, irate, increase, resets, xrate, xincrease): for any other function the replicas are not wrapped in the value-adjusting iterator (C02 counter-wrapping), so yielded samples are replica samples.",
 		Assume: []string{"the penalty arithmetic itself (which replica wins) is not decided; only that the exposed position, provenance and monotone seek targets are wired on all paths"},
 		Run:    runC01,
 	})
@@ -88,7 +89,8 @@ func runC01(c *Ctx) {
 	c.Rule("seek-targets", "inner seeks in Next use lastT + 1 + pen", 2)
 	c.Rule("seek-positioned", "Seek exposes samples only when positioned; inner Seek only to the current timestamp", 2)
 	c.Rule("all-replicas-folded", "Iterator folds replicas[0] and every element of replicas[1:]", 1)
-	p := c.Load("pkg/dedup")
+	c.Rule("values-adjusted-only-for-counter-functions", "isCounter accepts only counter functions", 1)
+	p := c.Load("pkg/dedup", "pkg/query")
 	if p == nil {
 		return
 	}
@@ -469,6 +471,23 @@ func checkReplicaFold(c *Ctx, p *Prog, rule string) {
 	}
 	c.Check(usesFirst && loop != nil && ctorCalls == 1 && !skips, rule, "pkg/dedup.(*dedupSeries).Iterator", p.Pos(fn.Decl.Pos()), "replica-not-folded",
 		fmt.Sprintf("every replica must be folded into the iterator exactly once (uses replicas[0]: %v, ranges over replicas[1:]: %v, constructor calls per element: %d, skips: %v)", usesFirst, loop != nil, ctorCalls, skips))
+	// (5) a replica is wrapped in the value-adjusting iterator exactly when isCounter (C02 counter-wrapping);
+	// the adjusted values are not samples of any replica, so isCounter may accept only functions with
+	// counter semantics. The table is PromQL's (and the Thanos engine's x-) counter functions.
+	counterFuncs := map[string]bool{"rate": true, "irate": true, "increase": true, "resets": true, "xrate": true, "xincrease": true}
+	isC, _, cands, err := counterClassifiers(p)
+	if err != nil {
+		c.Incomplete("values-adjusted-only-for-counter-functions", "pkg/dedup.isCounter", "", err.Error())
+		return
+	}
+	var extra []string
+	for _, f := range cands {
+		if isC[f] && !counterFuncs[f] {
+			extra = append(extra, fmt.Sprintf("%q", f))
+		}
+	}
+	c.Check(len(extra) == 0, "values-adjusted-only-for-counter-functions", "pkg/dedup.isCounter", "", "non-counter-function-adjusted:"+strings.Join(extra, ","),
+		"isCounter accepts "+strings.Join(extra, ",")+": for these query functions the merge wraps the replicas in the counter-reset adjustment and yields values that no replica holds")
 }
 
 func runC02(c *Ctx) {
@@ -668,51 +687,11 @@ func runC02(c *Ctx) {
 			fmt.Sprintf("replicas[0] and each further replica must be wrapped in counterErrAdjustSeriesIterator iff isCounter (isCounter branches: %d, wrapper literals: %d) %s", pairs, total, bad))
 	}
 	// (5)
-	accepted := func(fn *Fn, wantResult string) map[string]bool {
-		out := map[string]bool{}
-		if fn == nil {
-			return out
-		}
-		ast.Inspect(fn.Body(), func(n ast.Node) bool {
-			collect := func(e ast.Expr) {
-				ast.Inspect(e, func(m ast.Node) bool {
-					if b, ok := m.(*ast.BinaryExpr); ok && b.Op == token.EQL {
-						if lit, ok := unparen(b.Y).(*ast.BasicLit); ok {
-							out[strings.Trim(lit.Value, "\"")] = true
-						}
-					}
-					return true
-				})
-			}
-			switch v := n.(type) {
-			case *ast.ReturnStmt:
-				if wantResult == "" && len(v.Results) == 1 {
-					collect(v.Results[0])
-				}
-			case *ast.IfStmt:
-				if wantResult != "" {
-					rets := false
-					ast.Inspect(v.Body, func(m ast.Node) bool {
-						if r, ok := m.(*ast.ReturnStmt); ok && len(r.Results) == 1 {
-							if cl, ok := unparen(r.Results[0]).(*ast.CompositeLit); ok && len(cl.Elts) == 1 {
-								if sel, ok := unparen(cl.Elts[0]).(*ast.SelectorExpr); ok && sel.Sel.Name == wantResult {
-									rets = true
-								}
-							}
-						}
-						return true
-					})
-					if rets {
-						collect(v.Cond)
-					}
-				}
-			}
-			return true
-		})
-		return out
+	isC, aggr, cands, err := counterClassifiers(p)
+	if err != nil {
+		c.Incomplete("counter-functions", "pkg/dedup.isCounter", "", err.Error())
+		return
 	}
-	isC := accepted(p.Func("pkg/dedup", "", "isCounter"), "")
-	aggr := accepted(p.Func("pkg/query", "", "aggrsFromFunc"), "Aggr_COUNTER")
 	var missing []string
 	for _, f := range []string{"rate", "irate", "increase", "resets"} {
 		if !isC[f] {
@@ -721,12 +700,43 @@ func runC02(c *Ctx) {
 	}
 	c.Check(len(missing) == 0, "counter-functions", "pkg/dedup.isCounter", "", "counter-function-not-recognised:"+strings.Join(missing, ","), "isCounter does not accept "+strings.Join(missing, ","))
 	var unmapped []string
-	for f := range isC {
-		if !aggr[f] {
+	for _, f := range cands {
+		if isC[f] && !strings.Contains(aggr[f], "Aggr_COUNTER") {
 			unmapped = append(unmapped, f)
 		}
 	}
 	sort.Strings(unmapped)
-	c.Check(len(unmapped) == 0 && len(aggr) > 0, "counter-functions", "pkg/query.aggrsFromFunc", "", "counter-function-without-counter-aggregate:"+strings.Join(unmapped, ","),
+	c.Check(len(unmapped) == 0, "counter-functions", "pkg/query.aggrsFromFunc", "", "counter-function-without-counter-aggregate:"+strings.Join(unmapped, ","),
 		"functions treated as counters by the deduplication but not fetched as Aggr_COUNTER: "+strings.Join(unmapped, ","))
 }
+
+// counterClassifiers evaluates isCounter and aggrsFromFunc for every function name either of them
+// distinguishes (their string constants, one-character extensions, and names neither mentions).
+func counterClassifiers(p *Prog) (isC map[string]bool, aggr map[string]string, cands []string, err error) {
+	f1, f2 := p.Func("pkg/dedup", "", "isCounter"), p.Func("pkg/query", "", "aggrsFromFunc")
+	if f1 == nil || f2 == nil {
+		return nil, nil, nil, fmt.Errorf("isCounter / aggrsFromFunc not found")
+	}
+	e1, err := newStrEval(p, f1)
+	if err != nil {
+		return nil, nil, nil, err
+	}
+	e2, err := newStrEval(p, f2)
+	if err != nil {
+		return nil, nil, nil, err
+	}
+	cands = strCandidates(e1, e2)
+	isC, aggr = map[string]bool{}, map[string]string{}
+	for _, s := range cands {
+		r, err := e1.Eval(s)
+		if err != nil {
+			return nil, nil, nil, err
+		}
+		isC[s] = r == "true"
+		if aggr[s], err = e2.Eval(s); err != nil {
+			return nil, nil, nil, err
+		}
+	}
+	return isC, aggr, cands, nil
+}
+
